@@ -1,8 +1,16 @@
 """C06 — TimeInterval behaves as the right-open set [start, end) (or a single instant)."""
 from datetime import datetime, timedelta, timezone
 
+import os
+import time as _time
+
 import common
 from common import tf
+
+# The statement says naive datetimes are read as UTC: make "naive = local time" observable by giving this process a
+# local zone that is not UTC (seeded change C06-n3 normalised a naive probe with astimezone()).
+os.environ['TZ'] = 'VRF-05:30'
+_time.tzset()
 
 MODULE = 'GeoVerif.Props.C06'
 THEOREMS = ['GV.TI.' + t for t in (
@@ -12,7 +20,7 @@ THEOREMS = ['GV.TI.' + t for t in (
     'eq_imp_hash', 'mk_rejects')]
 
 EPOCH = datetime(1970, 1, 1, tzinfo=timezone.utc)
-BASE_US = int((datetime(2020, 1, 1, tzinfo=timezone.utc) - EPOCH) / timedelta(microseconds=1))
+BASE_US = (datetime(2020, 1, 1, tzinfo=timezone.utc) - EPOCH) // timedelta(microseconds=1)
 
 
 def mkdt(tok):
@@ -29,7 +37,7 @@ def mkdt(tok):
 def us_of(dt):
     if dt.tzinfo is None:
         dt = dt.replace(tzinfo=timezone.utc)
-    return int((dt - EPOCH) / timedelta(microseconds=1))
+    return (dt - EPOCH) // timedelta(microseconds=1)      # exact integer division (true division goes through float)
 
 
 def val(tok):
@@ -204,6 +212,22 @@ def check(run):
             lines.append(f'ti.mk {tok(c[0])} {tok(c[1])}')
     run.run_cases('random-us-tz', lines, impl, spec,
                   tag=lambda ln, a: ['tz:' + ('naive' if '@n' in ln else 'offset' if '@o' in ln else 'utc')])
+
+    # far from the epoch: years 1 … 9999, end points a microsecond or two apart (float timestamps lose the
+    # microsecond before ~1700 and after ~2240: seeded change C06-n2 compared .timestamp() floats)
+    lines = []
+    lo = us_of(datetime(1, 1, 2, tzinfo=timezone.utc))
+    hi = us_of(datetime(9999, 12, 30, tzinfo=timezone.utc))
+    for _ in range(run.scale(600, 20000)):
+        base = rng.choice([lo + rng.randrange(10**9), hi - rng.randrange(10**9), rng.randrange(lo, hi),
+                           us_of(datetime(rng.choice([1200, 1500, 1650, 2300, 2500, 4000, 9000]), 6, 15, tzinfo=timezone.utc))])
+        pts = [base + rng.choice([0, 1, 2, 3, rng.randrange(0, 10**7)]) for _ in range(4)]
+        a, b = sorted(pts[:2]), sorted(pts[2:])
+        op = rng.choice(BINOPS)
+        lines.append(f'ti.{op} {a[0]} {a[1]} {b[0]} {b[1]}')
+        if rng.random() < 0.3:
+            lines.append(f'ti.contains {a[0]} {a[1]} {rng.choice(pts)}')
+    run.run_cases('far-from-epoch-us', lines, impl, spec)
 
     return run.finish(
         rule='every ordered pair of intervals/instants with end points on a small tick line x every operator '
